@@ -208,7 +208,7 @@ def check(world, tier):
                 v = e.read(s, ("L", e.entry_frame, 0), (fields.index(f),))
                 c.ob(v[0] == "i" and v[1] == (w, ()), "default-%s" % f, "default of %s is not %s" % (f, w), sample={f: w})
             ip = e.subtree(s, ("L", e.entry_frame, 0), (fields.index("ip_address"),))
-            okip = "LOCALHOST" in repr(ip) or "127" in repr(ip)
+            okip = "LOCALHOST" in repr(ip) or "127" in repr(ip) or any("\\x7f\\x00\\x00\\x01" in r_ or "127, 0, 0, 1" in r_ for v_ in ip.values() for r_ in const_reprs(prog, v_))
             c.ob(okip, "default-ip", "default ip address is not 127.0.0.1", sample={"ip_address": "Ipv4Addr::LOCALHOST"})
             dv = e.subtree(s, ("L", e.entry_frame, 0), (fields.index("directory"),))
             okdir = "std::env::current_dir" in repr(dv) or "closure_result" in repr(dv)
